@@ -174,14 +174,14 @@ def node_adding(ctx, repo: Repo, pid: str):
             pt = src(key.args[0])
         proj = kw.get("projection")
         okp = isinstance(proj, ast.Call) and isinstance(proj.func, ast.Name) and proj.func.id in normaliser_functions(repo) and \
-            proj.args and src(proj.args[0]) == pt and not proj.keywords
+            len(proj.args) == 1 and src(proj.args[0]) == pt and not proj.keywords
         if okp:
             ctx.ok("OWN", f"{pid}.nodes.projection", "every node's projection is the node itself scaled to unit length (set at the only "
                    "node-adding site)", where, src(n)[:160])
         else:
             is_norm_call = isinstance(proj, ast.Call) and isinstance(proj.func, ast.Name) and proj.func.id in normaliser_functions(repo)
             definite = proj is None or (pt is not None and src(proj) == pt) or \
-                (is_norm_call and (proj.keywords or not proj.args or (pt is not None and src(proj.args[0]) != pt)))
+                (is_norm_call and (proj.keywords or len(proj.args) != 1 or (pt is not None and src(proj.args[0]) != pt)))
             if definite:
                 ctx.violate("OWN", f"{pid}.nodes.projection", "projection stored with a node is not that node scaled to unit length", where,
                             src(n)[:200], witness=f"projection={src(proj) if proj is not None else None}, node={pt}")
